@@ -1,5 +1,11 @@
 """U-CHK-V: Verus contracts (unbounded in stream length, document count and read sizes) for src/yaml/chunker.rs:
-ChunkReader::{new, trim_to_offset, take_to_offset, read}, Chunker::{new, next}, Document::{content, is_collection}.
+ChunkReader::{new, trim_to_offset, take_to_offset, read}, Chunker::{new, next}, Document::{content, is_collection};
+and for src/yaml.rs: transcode_reader (every chunk offered once, in order) and transcode (the slice fast path is taken only
+behind `str::from_utf8(&b)` succeeding AND `Encoding::detect(&b)` saying UTF-8 -- stated as the precondition `yaml_text_ok`
+of the stand-in `serde_yaml::Deserializer::from_str` (F2); every document of the slice iterator is offered exactly once and
+Ok(()) is returned only after the iterator reported its end; `Input` and `Encoding` are extracted verbatim,
+`Encoding::detect` is a stand-in with the table as an uninterpreted spec (its equality with the YAML 1.2.2 table is the Kani unit U-ENC-D);
+`Cow::deref` carries an assumed spec (a pure function of the Cow)).
 
 The libyaml binding (src/yaml/chunker/parser.rs: Parser, Event) is NOT extracted: it is represented by opaque
 stand-in types whose methods carry an ASSUMED contract -- an executable-free statement of what libyaml is
@@ -20,8 +26,9 @@ from . import std_specs as S
 HEADER = S.CRATE_ATTRS + r'''// GENERATED on every run by /verif/bin/vcheck -- do not edit.  Executable items below are extracted
 // verbatim from the working tree; ghost insertions are wrapped in /*@G<*/ ... /*@G>*/ markers.
 use vstd::prelude::*;
-use std::io::{self, BufRead, Read};
+use std::io::{self, BufRead, BufReader, Read};
 use std::mem;
+use std::str;
 use vstd::string::StringSliceAdditionalSpecFns;
 verus! {
 global size_of usize == 8;
@@ -89,10 +96,20 @@ pub mod serde_yaml {
     #[verifier::external_body] pub struct Deserializer<'de> { _d: std::marker::PhantomData<&'de str> }
     // the text a document deserializer was built over
     pub uninterp spec fn yd_src<'de>(d: &Deserializer<'de>) -> Seq<u8>;
+    pub uninterp spec fn yd_yielded<'de>(d: &Deserializer<'de>) -> nat;
+    pub uninterp spec fn yd_done<'de>(d: &Deserializer<'de>) -> bool;
     impl<'de> Deserializer<'de> {
         #[verifier::external_body]
         pub fn from_str(s: &'de str) -> (d: Self)
-            ensures yd_src(&d) == s.spec_bytes(),
+            requires super::yaml_text_ok(s),
+            ensures yd_src(&d) == s.spec_bytes(), yd_yielded(&d) == 0, !yd_done(&d),
+        { unimplemented!() }
+        // a multi-document deserializer is an iterator over per-document deserializers (inherent stand-in for Iterator::next)
+        #[verifier::external_body]
+        pub fn next(&mut self) -> (r: Option<Deserializer<'de>>)
+            requires !yd_done(old(self)),
+            ensures r is Some ==> yd_yielded(final(self)) == yd_yielded(old(self)) + 1 && !yd_done(final(self)),
+                r is None ==> yd_yielded(final(self)) == yd_yielded(old(self)) && yd_done(final(self)),
         { unimplemented!() }
     }
     impl<'de> super::de::Deserializer<'de> for Deserializer<'de> { type Error = Error; }
@@ -122,6 +139,18 @@ pub trait ExBufRead: std::io::Read {
     fn fill_buf(&mut self) -> (r: std::io::Result<&[u8]>);
     fn consume(&mut self, amt: usize);
 }
+
+#[verifier::external_type_specification] #[verifier::external_body] pub struct ExUtf8Error(std::str::Utf8Error);
+#[verifier::external_type_specification] #[verifier::external_body] #[verifier::reject_recursive_types(R)] pub struct ExBufReader<R: ?Sized>(std::io::BufReader<R>);
+pub assume_specification<R: std::io::Read> [std::io::BufReader::<R>::new] (r: R) -> std::io::BufReader<R>;
+pub assume_specification [std::str::from_utf8] (v: &[u8]) -> (r: std::result::Result<&str, std::str::Utf8Error>)
+    ensures r matches Ok(s) ==> s.spec_bytes() == v@;
+// `&b` with b: Cow<[u8]> coerced to &[u8]: the same borrowed slice every time (ASSUMED: Cow::deref is a pure function of the Cow)
+pub uninterp spec fn cow_ref<'a, 'b, B: ?Sized + ToOwned>(c: &'b std::borrow::Cow<'a, B>) -> &'b B;
+pub assume_specification<'a, 'b, B: ?Sized + ToOwned> [<std::borrow::Cow<'a, B> as std::ops::Deref>::deref] (c: &'b std::borrow::Cow<'a, B>) -> (r: &'b B)
+    ensures r == cow_ref(c);
+// a text that may be handed to serde_yaml as it is: the UTF-8 encoding of a YAML stream (F2), or a chunk cut by the chunker
+pub uninterp spec fn yaml_text_ok(s: &str) -> bool;
 
 // the extracted items live in the module they come from, so that `pub(super)` keeps its meaning
 pub mod yaml { use super::*; pub mod chunker { use super::*;
@@ -370,6 +399,41 @@ CR_READ_SPEC = '''ensures final(buf)@.len() == old(buf)@.len(),
         r is Err ==> final(self).captured@ == old(self).captured@,'''
 CR_NEW_SPEC = 'ensures r.reader == reader, r.captured@.len() == 0, r.captured_start_offset == 0,'
 
+INPUT_HEAD = r'''
+pub mod input {
+    use vstd::prelude::*;
+    use std::borrow::Cow;
+    use std::io::Read;
+    #[verifier::external_body]
+    pub struct Handle<'i> { _h: std::marker::PhantomData<&'i [u8]> }
+'''
+INPUT_TAIL = r'''
+    pub uninterp spec fn input_of<'i>(h: Handle<'i>) -> Input<'i>;
+    impl<'i> vstd::std_specs::convert::FromSpecImpl<Handle<'i>> for Input<'i> {
+        open spec fn obeys_from_spec() -> bool { true }
+        open spec fn from_spec(h: Handle<'i>) -> Input<'i> { input_of(h) }
+    }
+    impl<'i> From<Handle<'i>> for Input<'i> {
+        #[verifier::external_body]
+        fn from(handle: Handle<'i>) -> (r: Self) ensures r == input_of(handle), { unimplemented!() }
+    }
+}
+use input::Input;
+'''
+ENCODING_STANDIN = r'''
+// what the YAML 1.2.2 section 5.2 table says for a prefix (Encoding::detect == this table: Kani unit U-ENC-D, complete)
+pub uninterp spec fn spec_detect(prefix: Seq<u8>) -> Encoding;
+impl Encoding {
+    #[verifier::external_body]
+    pub fn detect(prefix: &[u8]) -> (r: Encoding) ensures r == spec_detect(prefix@), { unimplemented!() }
+}
+// F2 (C07 / C02): a slice may go to serde_yaml directly only if it is the UTF-8 encoding of the stream
+#[verifier::external_body]
+pub broadcast proof fn axiom_utf8_stream_text_ok(s: &str)
+    requires spec_detect(s.spec_bytes()) is Utf8,
+    ensures #[trigger] yaml_text_ok(s),
+{ }
+'''
 YAML_RS_OPEN = r'''
 pub mod yaml_rs {
     use super::*;
@@ -405,6 +469,11 @@ TR_AFTER_OFFER = '''proof {
     assert(log0 + offered =~= (log0 + offered.drop_last()).push(offered.last()));
 }'''
 TR_END = '''proof { assert(all_offered); }'''
+TC_FOR = (r'let ghost n0 = out_log(&output).len(); let ghost mut all_offered = false; let mut verus_iter = \2; '
+          r'loop invariant_except_break !serde_yaml::yd_done(&verus_iter), invariant out_log(&output).len() == n0 + serde_yaml::yd_yielded(&verus_iter), ensures all_offered, '
+          r'{ let \1 = match verus_iter.next() { None => { proof { all_offered = true; } break }, Some(verus_item) => verus_item };')
+# C03 / C04 (slice path): Ok(()) only after the document iterator reported the end, with one offer per document it yielded
+TC_END = '''proof { assert(all_offered); }'''
 SRC = 'repo:src/yaml/chunker.rs'
 CRI = r'\bimpl\s*<R>\s+ChunkReader\s*<R>'
 CRR = r'\bimpl\s*<R>\s+Read\s+for\s+ChunkReader\s*<R>'
@@ -443,9 +512,14 @@ ITEMS = [
     dict(src=SRC, kind='fn', name='is_collection', within_impl=DOCI,
          contract=dict(ret='r', spec='ensures r == (self.kind_v() == 2),')),
     dict(src=SRC, kind='fn', name='content', within_impl=DOCI, mode='external_body',
-         contract=dict(ret='r', spec='ensures r.spec_bytes() == self.content_v(),')),   # `&self.content` (String -> &str deref): assumed
+         contract=dict(ret='r', spec='ensures r.spec_bytes() == self.content_v(), yaml_text_ok(r),')),   # `&self.content` (String -> &str deref): assumed
     dict(raw='}'),
     # ---- src/yaml.rs: the reader loop that feeds the chunks to the output (in a child module so that it sees Chunker) ----
+    dict(raw=INPUT_HEAD),
+    dict(src='repo:src/input.rs', kind='enum', name='Input', drop_vis=True, wrap=('    pub', '')),
+    dict(raw=INPUT_TAIL),
+    dict(src='repo:src/yaml/encoding.rs', kind='enum', name='Encoding', drop_vis=True, wrap=('pub', '')),
+    dict(raw=ENCODING_STANDIN),
     dict(raw=YAML_RS_OPEN),
     dict(src='repo:src/yaml.rs', kind='fn', name='transcode_reader',
          contract=dict(ret='r', spec='ensures true,', attrs=['#[verifier::exec_allows_no_decreases_clause]'],   # termination: the stream ends (libyaml); not proved
@@ -453,6 +527,12 @@ ITEMS = [
                        rewrites=[dict(find=r'for\s+(\w+)\s+in\s+([^{]+?)\s*\{', to=TR_FOR, expand=True)],
                        inserts=[dict(before=r'Ok\(\(\)\)\s*\}\s*$', text=TR_END)],
                        inserts_all=[dict(after=r'output\s*\.\s*transcode_from\s*\([^;]*;', text=TR_AFTER_OFFER)])),
+    # yaml::transcode: the slice fast path (F2 guard as the precondition of from_str; every document of the slice offered once)
+    dict(src='repo:src/yaml.rs', kind='fn', name='transcode',
+         contract=dict(ret='r', spec='ensures true,', attrs=['#[verifier::exec_allows_no_decreases_clause]'],
+                       prologue='broadcast use axiom_utf8_stream_text_ok;',
+                       rewrites=[dict(find=r'for\s+(\w+)\s+in\s+([^{]+?)\s*\{', to=TC_FOR, expand=True)],
+                       inserts=[dict(before=r'Ok\s*\(\s*\(\s*\)\s*\)', text=TC_END)])),
     dict(raw='}'),
 ]
 
